@@ -58,6 +58,10 @@ type tagFilter struct {
 	isNegative bool
 	isRegexp   bool
 
+	// the matcher of an InfluxQL regexp works on the tag value itself, not on its escaped form inside the
+	// tag->tsids items (marshalTagValue)
+	matchUnescaped bool
+
 	// Set to true for filters matching empty value.
 	isEmptyMatch bool
 
@@ -198,6 +202,14 @@ func (tf *tagFilter) matchSuffix(b []byte) (bool, error) {
 	if len(b) == 0 || b[len(b)-1] != tagSeparatorChar {
 		return false, fmt.Errorf("unexpected end of b; want %d; b=%q", tagSeparatorChar, b)
 	}
+	if tf.matchUnescaped && bytes.IndexByte(b, escapeChar) >= 0 {
+		// a separator byte of the value is stored as two bytes: a regexp must see the value as it was written
+		_, value, err := unmarshalTagValue(nil, b)
+		if err != nil {
+			return false, err
+		}
+		return tf.reSuffixMatch(value), nil
+	}
 	b = b[:len(b)-1]
 	if !tf.isRegexp {
 		return len(b) == 0, nil
@@ -228,6 +240,7 @@ func (tf *tagFilter) Init(name, key, value []byte, isNegative, isRegexp bool) er
 	tf.name = append(tf.name[:0], name...)
 	tf.isNegative = isNegative
 	tf.isRegexp = isRegexp
+	tf.matchUnescaped = isRegexp && !config.GetStoreConfig().EnablePerlRegrep
 	tf.matchCost = 0
 	tf.reSuffixMatch = nil
 	tf.isEmptyValue = false
@@ -522,14 +535,14 @@ func getRegexpFromCache(expr []byte) (regexpCacheValue, error) {
 	atomic.AddUint64(&regexpCacheMisses, 1)
 	exprOrig := string(expr)
 
-	expr = []byte(tagCharsRegexpEscaper.Replace(exprOrig))
-	exprStr := string(expr)
+	// the expression is matched against the unescaped tag value (tagFilter.matchSuffix)
+	exprStr := exprOrig
 	re, err := regexp.Compile(exprStr)
 	if err != nil {
 		return rcv, fmt.Errorf("invalid regexp %q: %w", exprStr, err)
 	}
 
-	sExpr := string(expr)
+	sExpr := exprOrig
 	orValues := getOrValues(sExpr)
 	var reMatch func(b []byte) bool
 	var reCost uint64
@@ -541,7 +554,11 @@ func getRegexpFromCache(expr []byte) (regexpCacheValue, error) {
 	}
 
 	// Put the reMatch in the cache.
-	rcv.orValues = orValues
+	// the or-values become suffixes of item keys (updateTSIDsByOrSuffixes): escape them as marshalTagValue does
+	rcv.orValues = make([]string, 0, len(orValues))
+	for _, v := range orValues {
+		rcv.orValues = append(rcv.orValues, string(marshalTagValueNoTrailingTagSeparator(nil, []byte(v))))
+	}
 	rcv.reMatch = reMatch
 	rcv.reCost = reCost
 	rcv.literalSuffix = literalSuffix
